@@ -7,7 +7,8 @@ from ..sim import tpm as T
 
 ID = "C12"
 P = "Webauthn.Props.C12."
-THEOREMS = [P + n for n in ("tables", "attribute_names", "attributes", "not_certify", "lenPrefixed_spec", "beNat_len2")]
+THEOREMS = [P + n for n in ("tables", "attribute_names", "attributes", "not_certify", "lenPrefixed_spec", "beNat_len2",
+                            "certinfo_exact", "pubarea_rsa_exact", "pubarea_ecc_exact")]
 LEAN_TARGETS = ["Props.C12"]
 SPEC_FILES = ["Spec/Core.lean"]
 ASSUMPTIONS = ["identifier tables and attribute-bit expressions are regenerated from /repo and proved equal to the transcription of "
@@ -46,6 +47,12 @@ def work(tasks, idx):
                          restart_count=rng.getrandbits(32), safe=rng.choice([0, 1, 2, 255]), firmware_version=rng.bytes_(8),
                          attested_name=name, attested_qualified_name=rng.bytes_(rng.choice(SIZES)))
                 b = T.encode_cert_info(**f)
+                # the layout of the parseCertInfo_encode theorem is the simulator's (independent) layout
+                tie.check({"op": "encode_cert_info", "magic": f["magic"].to_bytes(4, "big").hex(), "type": st.to_bytes(2, "big").hex(),
+                           "qs": f["qualified_signer"].hex(), "extra": f["extra_data"].hex(), "clock": f["clock"].hex(),
+                           "reset": f["reset_count"], "restart": f["restart_count"], "safe": f["safe"],
+                           "fw": f["firmware_version"].hex(), "name": name.hex(), "qname": f["attested_qualified_name"].hex()},
+                          {"k": "accept", "record": b.hex()}, label=["layout", "certinfo"])
                 code = cases.code_parse_cert_info(b)
                 res.evaluations += 1
                 tie.check({"op": "parse_cert_info", "b": b.hex()}, code, label=["certinfo", hex(st)])
@@ -79,6 +86,8 @@ def work(tasks, idx):
                               "key_bits": kb.to_bytes(2, "big").hex(), "exponent": ex.to_bytes(4, "big").hex()}
                     uniq = mod
                     ty = "TPM_ALG_RSA"
+                    lay = {"op": "encode_pub_area", "kind": "rsa", "type": "0001", "key_bits": kb.to_bytes(2, "big").hex(),
+                           "exponent": ex.to_bytes(4, "big").hex(), "modulus": mod.hex()}
                 else:
                     crv, kdf = rng.choice(list(CURVE)), rng.choice(list(ALG))
                     x, y = rng.bytes_(rng.choice([0, 32, 48, 66])), rng.bytes_(rng.choice([0, 32, 48, 66]))
@@ -88,6 +97,11 @@ def work(tasks, idx):
                               "curve_id": CURVE[crv], "kdf": "TPM_ALG_" + ALG[kdf]}
                     uniq = x + y
                     ty = "TPM_ALG_ECC"
+                    lay = {"op": "encode_pub_area", "kind": "ecc", "type": "0023", "crv": crv.to_bytes(2, "big").hex(),
+                           "kdf": kdf.to_bytes(2, "big").hex(), "x": x.hex(), "y": y.hex()}
+                lay.update({"name_alg": name_alg.to_bytes(2, "big").hex(), "attrs": attrs, "policy": pol.hex(),
+                            "sym": sym.to_bytes(2, "big").hex(), "sch": sch.to_bytes(2, "big").hex()})
+                tie.check(lay, {"k": "accept", "record": b.hex()}, label=["layout", kind])
                 code = cases.code_parse_pub_area(b)
                 res.evaluations += 1
                 tie.check({"op": "parse_pub_area", "b": b.hex()}, code, label=["pubarea", kind])
